@@ -5,7 +5,7 @@ from __future__ import annotations
 import ast
 
 from ..cfg import NORMAL, ALL, walk_local
-from ..facts import (cfg_of, call_name, calls_in, bind_args, targets_of,
+from ..facts import (runs_only_when, cfg_of, call_name, calls_in, bind_args, targets_of,
                      local_assigns, resolve_local, guard_atoms, is_attr,
                      is_name, strip_await, names_in, enclosing)
 from ..loader import txt, AnchorError
@@ -383,12 +383,7 @@ def r24(ctx) -> None:
                                          for c in x.calls()))
         if deleted and cfg.dominated_by(n, deleted, labels=ALL):
             continue
-        falsy = False
-        for t in cfg.nodes:
-            if t.kind == 'test' and guard_atoms(t.stmt.test) == \
-                    [('selected', True)] and cfg.controlled_by(n, t, 'f'):
-                falsy = True
-        if falsy:
+        if runs_only_when(cfg, n, 'selected', False):
             continue
         exits_without.append(n.lineno)
     R.check(bool(merges) and not exits_without, lu, lu.node,
